@@ -293,7 +293,7 @@ fn u1_name(r: &mut Rng) -> NameM {
 
 fn u1_record(r: &mut Rng, names: &[NameM]) -> RecSem {
     let name = r.pick(names).clone();
-    let t = *r.pick(&[1u16, 28, 33, 16, 12, 7, 8, 9, 15, 5, 2, 13, 5]);
+    let t = *r.pick(&[1u16, 28, 33, 16, 12, 7, 8, 9, 15, 5, 2, 13, 5, 10, 65280]);
     let rd = match t {
         1 => Rd::Fields(vec![F::Int(r.below(4))]),
         28 => Rd::Fields(vec![F::Bytes({ let mut v = vec![0u8; 16]; v[15] = r.below(3) as u8; v })]),
@@ -301,6 +301,8 @@ fn u1_record(r: &mut Rng, names: &[NameM]) -> RecSem {
         16 => Rd::Fields(vec![F::List(vec![vec![b'k', b'=', b'0' + r.below(3) as u8]])]),
         15 => Rd::Fields(vec![F::Int(r.below(2)), F::Name(r.pick(names).clone())]),
         13 => Rd::Fields(vec![F::Bytes(vec![b'c', b'0' + r.below(2) as u8]), F::Bytes(b"os".to_vec())]),
+        // opaque data: type NULL itself and a private-use type (both live in the library's NULL variant)
+        10 | 65280 => Rd::Opaque(vec![0xAB, r.below(3) as u8]),
         _ => Rd::Fields(vec![F::Name(r.pick(names).clone())]),
     };
     RecSem { name, rtype: t, class: *r.pick(&[1u16, 1, 1, 3]), flush: false, ttl: 100_000, rd }
@@ -396,7 +398,7 @@ pub fn u1_case(ctx: &mut Ctx, idx: u64) {
                     let name = if r.chance(3, 4) { r.pick(&names).clone() } else { u1_name(&mut r) };
                     // parent/child probes
                     let name = match r.below(6) { 0 if name.len() > 1 => name[1..].to_vec(), 1 => { let mut n2 = name.clone(); n2.insert(0, b"a".to_vec()); n2 }, _ => name };
-                    QSem { name, qtype: *r.pick(&[1u16, 28, 33, 16, 12, 7, 8, 9, 15, 255, 255, 253, 5, 2, 13]), qclass: *r.pick(&[1u16, 1, 3, 255]), unicast: r.chance(1, 4) }
+                    QSem { name, qtype: *r.pick(&[1u16, 28, 33, 16, 12, 7, 8, 9, 15, 255, 255, 253, 5, 2, 13, 10]), qclass: *r.pick(&[1u16, 1, 3, 255]), unicast: r.chance(1, 4) }
                 }).collect();
                 let qid = r.int(16) as u16;
                 ctx.case(!members.is_empty(), sh ^ fnv(format!("{:?}", qs).as_bytes()));
@@ -591,7 +593,7 @@ fn live(ctx: &mut Ctx) {
             let qs: Vec<QSem> = (0..nq).map(|_| {
                 let name = if r.chance(4, 5) { r.pick(&names).clone() } else { let mut n = u1_name(&mut r); n.push(suffix.clone()); n };
                 let name = match r.below(6) { 0 if name.len() > 2 => name[1..].to_vec(), 1 => { let mut n2 = name.clone(); n2.insert(0, b"a".to_vec()); n2 }, _ => name };
-                QSem { name, qtype: *r.pick(&[1u16, 28, 33, 16, 12, 7, 8, 9, 15, 255, 255, 253, 5, 2, 13]), qclass: *r.pick(&[1u16, 1, 3, 255]), unicast: if tap.is_some() { r.chance(1, 2) } else { true } }
+                QSem { name, qtype: *r.pick(&[1u16, 28, 33, 16, 12, 7, 8, 9, 15, 255, 255, 253, 5, 2, 13, 10]), qclass: *r.pick(&[1u16, 1, 3, 255]), unicast: if tap.is_some() { r.chance(1, 2) } else { true } }
             }).collect();
             qid = qid.wrapping_add(1);
             let must = model.recs.iter().any(|(i, _)| qs.iter().any(|q| i.name == q.name && type_match(q.qtype, i.rtype) && class_match(q.qclass, i.class)));
